@@ -126,6 +126,9 @@ class Calls(Interp):
             r = fv[1](self, st, *args, **kwargs)
             yield st, r
             return
+        if isinstance(fv, tuple) and fv and fv[0] == 'opaque':
+            yield st, ('opaque',)
+            return
         if isinstance(fv, Closure):
             yield from self.call_closure(fv, args, kwargs, st)
             return
@@ -643,6 +646,10 @@ class Calls(Interp):
         if isinstance(v, V) and v.ty.kind == 'cls' and v.ty.args[0] in self.reg.classes:
             yield st, self.reg.classes[v.ty.args[0]].pyclass
             return
+        if isinstance(v, V) and v.ty.kind == 'cls':
+            return_opaque = ('opaque',)       # the class of a hierarchy value: only used for display (type(x).__name__)
+            yield st, return_opaque
+            return
         raise Outside("type() of %r" % (v,))
 
     def bi_sorted(self, args, kwargs, st, e):
@@ -676,9 +683,26 @@ class Calls(Interp):
             return
         if recv is int and name == 'from_bytes' or isinstance(recv, type) and recv is int:
             pass
+        if isinstance(recv, tuple) and recv and recv[0] == 'lock' and name in ('acquire', 'release'):
+            # threading.Lock used explicitly: single-threaded semantics, but the hold count is tracked so that a path
+            # that ends with the lock still held fails the :lock-released obligation
+            st.locks_held = getattr(st, 'locks_held', 0) + (1 if name == 'acquire' else -1)
+            yield st, (True if name == 'acquire' else None)
+            return
         if isinstance(recv, tuple) and recv and recv[0] in ('logger', 'opaque'):
             self.assumptions_used.add('A-LOG')
             yield st, None
+            return
+        if isinstance(recv, tuple) and recv and recv[0] == 'external':
+            # sockets, selectors and the like (A-SOCK): a call returns something the verification does not look at, or
+            # raises an exception of an unknown class
+            self.assumptions_used.add('A-SOCK')
+            from .stmts import AnyException
+            s_r = st.fork()
+            s_r.trace.append("external %s raises" % name)
+            yield s_r, Raised(ExcVal(AnyException, (), 'external call .%s()' % name))
+            rty = self.external_result_types.get(name)
+            yield st, (self.fresh('ext_' + name, rty, st) if rty is not None else ('opaque',))
             return
         if isinstance(recv, EmptyMap):
             if name == 'set':
